@@ -367,7 +367,7 @@ func assumptionsFor(prop string) []string {
 		"the go/ssa lowering (x/tools v0.29.0, InstantiateGenerics) of /repo's current source is what is executed symbolically; the engine's interpretation of ~35 SSA instruction kinds is validated by native replay of every reach-witness and every counterexample on each run",
 		"machine integer semantics (64-bit int, wrap-around); allocations above 2^47 bytes panic, others succeed; capacity chosen by append on reallocation is any value >= the new length",
 		"every bound named in coverage.bounds and every vf.Assume in the harness sources under /verif/harness limits the claim",
-		"solver: z3 4.8.12 (unknown/timeout/error lines make the run inconclusive, never a pass)",
+		"solver: z3 4.8.12 and cvc5 1.0.3 raced incrementally per query (first definite answer wins; z3 5.1.0 / cvc5 one-shot portfolio with 60 s cap on unknown); unknown/timeout/error lines make the run inconclusive, never a pass",
 	}
 	b, err := os.ReadFile(filepath.Join(VerifDir, "harness", "assumptions.json"))
 	if err == nil {
